@@ -47,7 +47,8 @@ def ens_gate_mac(self, old_self, exc):
     buf = logical_rx(old_self)
     if exc is not None or len(self.rx_queue) == 0:
         return exc is None
-    return bytes(self.rx_queue[0].mac) == buf[2:8]
+    end = buf[1] + 2
+    return bytes(self.rx_queue[0].mac) == buf[:end + 3][2:8]    # a CRC-valid runt (length byte < 3) is cut before byte 8
 
 
 # ---- QueueElement parsing
